@@ -555,11 +555,14 @@ def _pc_race_ops(mpc, secint):
     ]
 
 
-def _pc_race_program(names):
+def _pc_race_program(names, private=False):
     async def prog(mpc, ctx):
         """Every pc-carrying coroutine is started on an operand that is still on its way from party 0, while the main
         program waits for a value from the LAST party only and then forks more work: which of the two arrives first differs
-        per party and per schedule, so a coroutine that took its labels from the main program's counter would mislabel."""
+        per party and per schedule, so a coroutine that took its labels from the main program's counter would mislabel.
+        private=True: instead, only party 0 waits (for a private result that takes longer than the whole operation), the
+        other parties do not wait at all, so the operation's continuation and the main program's next fork happen in
+        opposite orders at party 0 and elsewhere -- already on the default schedule."""
         await mpc.start()
         secint = mpc.SecInt(8)
         last = len(mpc.parties) - 1
@@ -570,7 +573,15 @@ def _pc_race_program(names):
             a = mpc.input(secint(6), senders=0)       # pending until party 0's share arrives
             b = mpc.input(secint(3), senders=last)    # pending until the last party's share arrives
             r = op(a)
-            await mpc.gather(b)
+            if private:
+                c = b
+                for _ in range(4):
+                    c = mpc.if_else(c < 100, c, b)
+                priv = mpc.output(c, receivers=0)
+                if mpc.pid == 0:
+                    await priv
+            else:
+                await mpc.gather(b)
             g = mpc.output(b * b)
             res.append([name, await mpc.output(r), await g])
         ctx.out('r', res)
@@ -578,12 +589,202 @@ def _pc_race_program(names):
     return prog
 
 
-_ALL_PC_OPS = [n for n, _, _ in _pc_race_ops(None, lambda v: v)] if False else ['mul', 'schur_prod', 'in_prod', 'scalar_mul', 'prod', 'matrix_prod', 'if_else_list', 'lt', 'eq', 'abs',
-                                                                                  'lsb', 'mod3', 'floordiv', 'max', 'to_bits', 'all', 'convert', 'reshare', 'sorted', 'if_swap']
+_ALL_PC_OPS = ['mul', 'schur_prod', 'in_prod', 'scalar_mul', 'prod', 'matrix_prod', 'if_else_list', 'lt', 'eq', 'abs',
+               'lsb', 'mod3', 'floordiv', 'max', 'to_bits', 'all', 'convert', 'reshare', 'sorted', 'if_swap']
 for _i in range(0, len(_ALL_PC_OPS), 5):
     _names = _ALL_PC_OPS[_i:_i + 5]
-    PROGRAMS[f'pc_ops_race{_i // 5}'] = dict(name=f'pc_ops_race{_i // 5}', fn=_pc_race_program(_names), ms=(2, 3), tags=set(),
-                                            expect=(lambda m, _names=_names: [('r', [[n, ref(6), 9] for n, _, ref in _pc_race_ops(None, lambda v: v) if n in _names])]))
+    for _priv in (False, True):
+        _pn = f"pc_{'priv' if _priv else 'ops'}_race{_i // 5}"
+        PROGRAMS[_pn] = dict(name=_pn, fn=_pc_race_program(_names, _priv), ms=(2, 3), tags=set(),
+                             expect=(lambda m, _names=_names: [('r', [[n, ref(6), 9] for n, _, ref in _pc_race_ops(None, lambda v: v) if n in _names])]))
+
+
+def _lib_race_ops(mpc, secint):
+    """Coroutines of the library modules built on the runtime (seclists, statistics, random, secgroups, secure floats): each
+    awaits a public intermediate and only then starts further secure work, so each needs a program counter of its own."""
+    import sys
+    two = secint(2)
+    mod = lambda n: sys.modules['mpyc.' + n]
+
+    def seclist_remove(p):
+        s = mod('seclists').seclist([two, p, secint(5)], secint)
+        fut = s.remove(p)                 # public membership test on the pending operand, then a secret-index delete
+
+        async def fin():
+            await fut
+            return mpc.sum(list(s))
+        return fin
+
+    def flt_out(p):
+        secflt = mpc.SecFlt(8, 4)
+        x = secflt(1.5) * secflt(2.0)
+        fut = mpc.output(x)          # SecureFloat._output: opens the significand, then the exponent
+
+        async def fin():
+            return secint(int(await fut)) + p
+        return fin
+
+    def mode6(p):
+        s6 = mpc.SecInt(6)            # range bit length 6 > sec_param // 6: _mode() opens a bit before it goes on
+        r = mod('statistics').mode([s6(1), s6(3), s6(1)])
+
+        async def fin():
+            return secint(int(await mpc.output(r))) + p
+        return fin
+
+    def grp(p):
+        G = qr_group(mpc, 23)
+        S = mpc.SecGrp(G)
+        g = G.generator
+        h = S.repeat(g, mpc.convert(p, mpc.SecFld(modulus=G.order)))     # public base, secret field exponent
+
+        async def fin():
+            e = await mpc.output(h)
+            return secint(int(e == G.repeat(g, 6))) + p
+        return fin
+    return [
+        ('seclist_remove', seclist_remove, lambda v: 7),
+        ('median', lambda p: mod('statistics').median([p, two, secint(5)]) + p, lambda v: 5 + v),
+        ('mode', mode6, lambda v: 1 + v),
+        ('unit_vector', lambda p: mpc.sum(mod('random').random_unit_vector(secint, 3)) + p, lambda v: 1 + v),
+        ('derangement', lambda p: mpc.sum(mod('random').random_derangement(secint, [p, two])), lambda v: v + 2),
+        ('sample', lambda p: mpc.sum(mod('random').sample(secint, range(2), 2)) + p, lambda v: v + 1),
+        ('randrange', lambda p: (lambda r: r * (r - 1) * (r - 2) + p)(mod('random').randrange(secint, 3)), lambda v: v),
+        ('flt_out', flt_out, lambda v: 3 + v),
+        ('grp_repeat', grp, lambda v: 1 + v),
+    ]
+
+
+def qr_gen(p):
+    """Generator the library picks for QR(p): smallest square generating the subgroup (p safe prime: any square != 1)."""
+    g = 2
+    while pow(g, (p - 1) // 2, p) != 1 or g == 1:
+        g += 1
+    return g
+
+
+def _lib_race_program(names):
+    async def prog(mpc, ctx):
+        """As pc_ops_race, for the coroutines of seclists / statistics / random / secgroups / secure floats."""
+        await mpc.start()
+        secint = mpc.SecInt(8)
+        last = len(mpc.parties) - 1
+        res = []
+        for name, op, ref in _lib_race_ops(mpc, secint):
+            if name not in names:
+                continue
+            a = mpc.input(secint(6), senders=0)
+            b = mpc.input(secint(3), senders=last)
+            r = op(a)
+            await mpc.gather(b)
+            g = mpc.output(b * b)
+            if callable(r):
+                r = await r()
+            res.append([name, await mpc.output(r), await g])
+            # second round: a private output.  Party 0 waits for a value that takes longer than the whole operation, the
+            # other parties do not wait at all, so the operation's continuation and the main program's next fork happen in
+            # opposite orders at party 0 and elsewhere -- on the default schedule
+            a = mpc.input(secint(6), senders=0)
+            b = mpc.input(secint(3), senders=last)
+            r = op(a)
+            c = b
+            for _ in range(DEEP.get(name, 4)):
+                c = mpc.if_else(c < 100, c, b)
+            priv = mpc.output(c, receivers=0)
+            if mpc.pid == 0:
+                await priv           # only the receiver waits for its private result
+            g = mpc.output(b * b)
+            if callable(r):
+                r = await r()
+            res.append([name, await mpc.output(r), await g])
+        ctx.out('r', res)
+        await mpc.shutdown()
+    return prog
+
+
+DEEP = {}
+_ALL_LIB_OPS = ['seclist_remove', 'median', 'mode', 'unit_vector', 'derangement', 'sample', 'randrange', 'flt_out', 'grp_repeat']
+for _i in range(0, len(_ALL_LIB_OPS)):
+    _names = _ALL_LIB_OPS[_i:_i + 1]
+    PROGRAMS[f'lib_race_{_names[0]}'] = dict(name=f'lib_race_{_names[0]}', fn=_lib_race_program(_names), ms=(2, 3), tags=set(),
+                                             expect=(lambda m, _names=_names: [('r', [[n, ref(6), 9] for n, _, ref in _lib_race_ops(None, lambda v: v) if n in _names for _ in (0, 1)])]))
 
 
 MICRO = ('mod_race', 'reverse_await', 'mul_cmp')
+
+
+# ------------------------------------------------------------------------------------------
+# NumPy-based coroutines (only where NumPy is present: run by C37 under the tooling interpreter)
+# ------------------------------------------------------------------------------------------
+
+def _np_race_ops(mpc, secint):
+    import sys
+    np = sys.modules['mpyc.numpy'].np
+    secfld = mpc.SecFld(101)
+
+    def arr(p, *more):
+        """1D secure field array [p, 2, 3, ...] with p (a secure integer from party 0) converted to the field."""
+        x = mpc.convert(p, secfld)
+        return mpc.np_fromlist([x] + [secfld(v) for v in more])
+
+    def tot(a):
+        return mpc.convert(mpc.sum(mpc.np_tolist(a)), secint)
+    return [
+        ('np_roll_secret', lambda p: tot(mpc.np_roll(arr(p, 2, 3) * np.array([1, 10, 100]) % 101 if False else arr(p, 2, 3), secfld(1))[:1]), lambda v: 3),
+        ('np_roll_public', lambda p: tot(mpc.np_roll(arr(p, 2, 3), 1)[:1]), lambda v: 3),
+        ('np_multiply', lambda p: tot(arr(p, 2) * arr(p, 3)), lambda v: v * v + 6),
+        ('np_matmul', lambda p: tot((arr(p, 2) @ arr(p, 3)).reshape(1)) if False else mpc.convert(arr(p, 2) @ arr(p, 3), secint), lambda v: v * v + 6),
+        ('np_sort', lambda p: tot(mpc.np_sort(mpc.np_fromlist([p, secint(2), secint(9)]))[:1]) if False else mpc.np_tolist(mpc.np_sort(mpc.np_fromlist([p, secint(2), secint(9)])))[0], lambda v: min(v, 2)),
+        ('np_less', lambda p: mpc.sum(mpc.np_tolist(mpc.np_fromlist([p, secint(2)]) < 5)), lambda v: int(v < 5) + 1),
+        ('np_equal', lambda p: mpc.sum(mpc.np_tolist(mpc.np_fromlist([p, secint(2)]) == 6)), lambda v: int(v == 6)),
+    ]
+
+
+def _np_race_program(names):
+    async def prog(mpc, ctx):
+        """As pc_ops_race (both rounds), for the array coroutines."""
+        await mpc.start()
+        secint = mpc.SecInt(8)
+        last = len(mpc.parties) - 1
+        res = []
+        for name, op, ref in _np_race_ops(mpc, secint):
+            if name not in names:
+                continue
+            for private in (False, True):
+                a = mpc.input(secint(6), senders=0)
+                b = mpc.input(secint(3), senders=last)
+                r = op(a)
+                if private:
+                    c = b
+                    for _ in range(4):
+                        c = mpc.if_else(c < 100, c, b)
+                    priv = mpc.output(c, receivers=0)
+                    if mpc.pid == 0:
+                        await priv
+                else:
+                    await mpc.gather(b)
+                g = mpc.output(b * b)
+                res.append([name, int(await mpc.output(r)), await g])
+        ctx.out('r', res)
+        await mpc.shutdown()
+    return prog
+
+
+NP_RACE_OPS = ['np_roll_secret', 'np_roll_public', 'np_multiply', 'np_matmul', 'np_sort', 'np_less', 'np_equal']
+NP_PROGRAMS = {}
+for _n in NP_RACE_OPS:
+    NP_PROGRAMS[f'np_race_{_n}'] = dict(name=f'np_race_{_n}', fn=_np_race_program([_n]), ms=(2, 3), tags=set(),
+                                       expect=(lambda m, _n=_n: [('r', [[n, ref(6), 9] for n, _, ref in _np_race_ops_refs() if n == _n for _ in (0, 1)])]))
+
+
+def _np_race_ops_refs():
+    return [('np_roll_secret', None, lambda v: 3), ('np_roll_public', None, lambda v: 3), ('np_multiply', None, lambda v: v * v + 6),
+            ('np_matmul', None, lambda v: v * v + 6), ('np_sort', None, lambda v: min(v, 2)), ('np_less', None, lambda v: int(v < 5) + 1),
+            ('np_equal', None, lambda v: int(v == 6))]
+
+
+try:                                    # registered only where NumPy can be imported (tooling interpreter)
+    import numpy as _numpy              # noqa: F401
+    PROGRAMS.update(NP_PROGRAMS)
+except ImportError:
+    pass
